@@ -109,6 +109,26 @@ fn gen_boxes(r: &mut Rng, n: usize, pattern: usize) -> Vec<AABB> {
             (0..n).for_each(|k| v.push(if k % 3 == 0 { rand_box(r, [0.0, 0.0, 0.0], 10.0, 2.0, false) } else { a }))
         }
         4 => (0..n).for_each(|_| v.push(rand_box(r, [0.0, 0.0, 0.0], 15.0, 3.0, true))),
+        6 => {
+            // skewed: centres at doubling distances along one axis (a deep, one-sided tree)
+            let ax = r.below(3);
+            (0..n).for_each(|k| {
+                let d = 0.001 * (2.0f32).powi((k % 40) as i32) + 0.01 * (k / 40) as f32;
+                let mut c = [0.3f32, 0.7, 1.1];
+                c[ax] = d;
+                v.push(AABB::new(point![c[0] - 0.0004, c[1] - 0.2, c[2] - 0.2], point![c[0] + 0.0004, c[1] + 0.2, c[2] + 0.2]))
+            })
+        }
+        7 => {
+            // equal slats stacked along a short axis: every centroid coincides on the longest axis of the set, at a
+            // value that is not a dyadic number (the running mean of equal f32 values need not be that value)
+            let x0 = *r.pick(&[2.0f32, 2.1, 0.3, 7.7, 1.0e-3, 123.456]);
+            let len = *r.pick(&[6.1f32, 0.7, 3.3, 10.1]);
+            (0..n).for_each(|k| {
+                let z = 0.05 * k as f32;
+                v.push(AABB::new(point![x0, 1.0, z], point![x0 + len, 1.2, z + 0.01]))
+            })
+        }
         _ => {
             // identical boxes plus one a hair away
             let a = AABB::new(point![0.0, 0.0, 0.0], point![1.0, 1.0, 1.0]);
@@ -144,7 +164,10 @@ fn bvh_case(r: &mut Rng, n: usize, pattern: usize, nrays: usize, out: &str, find
     let boxes = gen_boxes(r, n, pattern);
     let input = boxes.clone();
     let desc = json!({"kind": "bvh", "n": n, "pattern": pattern, "boxes": boxes.iter().map(|b| [b.min.x, b.min.y, b.min.z, b.max.x, b.max.y, b.max.z]).collect::<Vec<_>>() });
-    let built = with_timeout(10, move || crate::guarded(std::panic::AssertUnwindSafe(|| BVH::build(input, 30))));
+    // the leaf capacity the library uses (30) and smaller ones (deeper trees over the same obstacles)
+    let leaf = *r.pick(&[30usize, 30, 30, 1, 2, 4, 8]);
+    let desc = json!({"kind": "bvh", "n": n, "pattern": pattern, "leaf_capacity": leaf, "boxes": desc["boxes"].clone()});
+    let built = with_timeout(10, move || crate::guarded(std::panic::AssertUnwindSafe(|| BVH::build(input, leaf))));
     let bvh = match built {
         None => hang(out, "BVH::build did not return within 10 s", desc),
         Some(Err(e)) => {
@@ -313,14 +336,14 @@ pub fn run(a: &Args) -> Batch {
     for i in 0..nb {
         let mut rr = r.fork(i as u64);
         let n = if i < sizes.len() * 2 { sizes[i % sizes.len()] } else { rr.range(0, 200) as usize };
-        let pattern = if i < 6 { i } else { rr.below(6) };
+        let pattern = if i < 8 { i } else { rr.below(8) };
         *stats.entry(format!("bvh_pattern_{}", pattern)).or_default() += 1;
         if let Some(c) = bvh_case(&mut rr, n, pattern, nrays, &a.out, &mut findings) {
             cases.push(c);
         }
     }
     // the patterns that used to defeat the builder, at the sizes around the leaf capacity
-    for (k, (n, pattern)) in [(31usize, 5usize), (31, 2), (31, 3), (64, 5), (200, 2), (1, 0), (30, 0), (0, 0)].iter().enumerate() {
+    for (k, (n, pattern)) in [(31usize, 5usize), (31, 2), (31, 3), (64, 5), (200, 2), (1, 0), (30, 0), (0, 0), (100, 6), (200, 6), (36, 7), (64, 7), (120, 7)].iter().enumerate() {
         let mut rr = r.fork(9000 + k as u64);
         if let Some(c) = bvh_case(&mut rr, *n, *pattern, nrays, &a.out, &mut findings) {
             cases.push(c);
@@ -344,7 +367,7 @@ pub fn run(a: &Args) -> Batch {
         agree: "agree_C13".into(),
         cases,
         impl_findings: findings,
-        rule: "obstacle sets of 0..200 boxes (random, clustered, concentric with equal centres, duplicated, flat, identical-plus-one-ulp) built with BVH::build under a 10 s watchdog, tree dumped and validated in Coq, rays aimed at boxes / random / axis-parallel; star-shaped simple polygons with 3..12 corners in rational poses (incl. quarter turns) against rays, exact geometry deciding outside the stated margins; reveal surfaces of set-back windows on walls of any pose; non-trivial = some rays hit and some miss (a non-vertical wall for reveals); distinct by content hash".into(),
+        rule: "obstacle sets of 0..200 boxes (random, clustered, concentric with equal centres, duplicated, flat, identical-plus-one-ulp, centres at doubling distances, equal slats whose centroids coincide on the longest axis at a non-dyadic value) built with BVH::build (leaf capacity 30 as in the library, or 1 / 2 / 4 / 8 for deeper trees) under a 10 s watchdog, tree dumped and validated in Coq, rays aimed at boxes / random / axis-parallel; star-shaped simple polygons with 3..12 corners in rational poses (incl. quarter turns) against rays, exact geometry deciding outside the stated margins; reveal surfaces of set-back windows on walls of any pose; non-trivial = some rays hit and some miss (a non-vertical wall for reveals); distinct by content hash".into(),
         stats: json!(stats),
     }
 }
